@@ -11,7 +11,7 @@ From SV Require Import Rot.C17Base SM.C17Name SM.C17Rounds SM.C17Subst SM.C17Sit
                        Gen.C17Formulas_gen
                        Rot.C17GeomProofs SM.C17NameProofs SM.C17RoundsProofs SM.C17SubstProofs SM.C17SitesProofs
                        SM.C17FrameProofs SM.C17GlobalProofs SM.C17CacheProofs SM.C17ComposeProofs
-                       SM.C17Whole SM.C17WholeProofs SM.C17PropertyProofs.
+                       SM.C17Whole SM.C17WholeProofs SM.C17PropertyProofs SM.C17Kinds SM.C17KindsProofs.
 Import ListNotations.
 (* String is imported for the census names; [length] keeps meaning the length of a list *)
 Local Notation length := List.length (only parsing).
@@ -393,6 +393,69 @@ Proof. exact g_arith_covers_sites. Qed.
 Theorem c17_property_transform_is_the_specification : forall D p (r : added D),
   transform D g_arith p r = transform D spec_arith p r.
 Proof. exact transform_g_is_spec. Qed.
+
+(** *** Round 5: [respects] narrowed to a GENERATED per-statement table (SM/C17Kinds.v).
+    translate/c17_formulas.py classifies every numbered site of the skeleton of collapse_one by where the names bound to
+    template objects occur in what the site evaluates: [KdLocal] (none), [KdRead] (only read by value), [KdCopy cls]
+    (`.copy()` of a template object of class cls), [KdOther] (anything else) - [g_collapse_statement_kinds].  The new
+    generated-object hypothesis is [kinds_ok]: every site of the skeleton has an entry, none is [KdOther], every copied
+    class is in [g_collapse_copied_classes] (obligation `statement_kinds_cover_collapse_one`).  What is still assumed
+    about the meaning [m] of the statements is [follows], kind by kind: a local / reading statement changes the heap
+    only by in-place stores and allocations through the references held (it builds no copy), a copying statement is
+    [disciplined] for its one class; a local statement computes from the values in hand alone, a reading / copying
+    statement from those and the VALUE of the template.  [follows] says nothing about an [KdOther] statement. *)
+Definition collapse_one_statement_kinds_ok : bool :=
+  andb collapse_one_skeleton_present
+       (forallb (fun f => if str_eqb (fst f) [99;111;108;108;97;112;115;101;95;111;110;101]%N
+                          then kinds_ok g_collapse_statement_kinds g_collapse_copied_classes (snd f) else true)
+                g_process_state_functions).
+
+Theorem c17_statement_kinds_give_respects : forall all copied (X G : Type) (a : loc) tbl body,
+  kinds_ok tbl copied body = true ->
+  forall m : sem (pstate X) G, follows all X G a tbl m -> respects all copied X G a m.
+Proof. exact kinds_respects. Qed.
+
+Theorem c17_property_by_statement_kinds : forall (all : list (string * census)),
+  copied_classes_fresh all g_collapse_copied_classes = true ->
+  process_state_only_gates_logging = true ->
+  forall name body, In (name, body) g_process_state_functions ->
+  kinds_ok g_collapse_statement_kinds g_collapse_copied_classes body = true ->
+  forall (X G A D : Type) (a : loc) (m : sem (pstate X) G), follows all X G a g_collapse_statement_kinds m ->
+  forall (enter : A -> X) (content : X -> list (item D)) cs t g g0, wf_T a t ->
+    c_history T G placement A (added D) (collapse X G m A D g_arith body enter content) cs t g =
+    map (as_if_first T G placement A (added D) (collapse X G m A D g_arith body enter content)
+           ident_placement (transform D g_arith) t g0) cs.
+Proof.
+  exact (fun all fr ga name body pr ok =>
+           kinds_each_collapse_as_if_first all g_collapse_copied_classes g_process_state_functions fr ga name body pr
+             g_collapse_statement_kinds ok).
+Qed.
+
+Theorem c17_property_by_statement_kinds_any_order : forall (all : list (string * census)),
+  copied_classes_fresh all g_collapse_copied_classes = true ->
+  process_state_only_gates_logging = true ->
+  forall name body, In (name, body) g_process_state_functions ->
+  kinds_ok g_collapse_statement_kinds g_collapse_copied_classes body = true ->
+  forall (X G A D : Type) (a : loc) (m : sem (pstate X) G), follows all X G a g_collapse_statement_kinds m ->
+  forall (enter : A -> X) (content : X -> list (item D)) cs cs' t g, wf_T a t -> Permutation.Permutation cs cs' ->
+    Permutation.Permutation (c_history T G placement A (added D) (collapse X G m A D g_arith body enter content) cs t g)
+                            (c_history T G placement A (added D) (collapse X G m A D g_arith body enter content) cs' t g).
+Proof.
+  exact (fun all fr ga name body pr ok =>
+           kinds_order_independent all g_collapse_copied_classes g_process_state_functions fr ga name body pr
+             g_collapse_statement_kinds ok).
+Qed.
+
+Theorem c17_property_by_statement_kinds_template_intact : forall (all : list (string * census)),
+  copied_classes_fresh all g_collapse_copied_classes = true ->
+  forall body, kinds_ok g_collapse_statement_kinds g_collapse_copied_classes body = true ->
+  forall (X G A D : Type) (a : loc) (m : sem (pstate X) G), follows all X G a g_collapse_statement_kinds m ->
+  forall (enter : A -> X) (content : X -> list (item D)) cs t g, wf_T a t ->
+    let t' := final_T X G m A D g_arith body enter content cs t g in
+    wf_T a t' /\ forall n, unfold n (fst t') (VRef a) = unfold n (fst t) (VRef a).
+Proof.
+  exact (fun all fr body ok => kinds_template_intact all g_collapse_copied_classes fr body g_collapse_statement_kinds ok).
+Qed.
 
 (** The derivations behind c17_property, for any arithmetic / census / skeleton: a statement that respects the census
     keeps the template's value and the separation (C09's census theorem + frame theorem, one statement at a time) ... *)
